@@ -33,7 +33,7 @@ Voc == <<
 >>
 
 \* generated regexes (the harness checks that `regex generate' really prints them)
-GPool == << "foo", "a\\\"b", "a\\\"@rx b", "x\\\" \\x5cy", "a$1b", "(?i)[ab]", "x y", "ab ", "ld1" >>   \* one ENDS in a blank, one is a substring of the stored operand old1
+GPool == << "foo", "a\\\"b", "a\\\"@rx b", "x\\\" \\x5cy", "a$1b", "(?i)[ab]", "x y", "ab ", "ld1", "" >>   \* one ENDS in a blank, one is a substring of the stored operand old1
 
 Ids == {"932100", "932101", "932110", "932120", "932130", "932140", "932999"}
 Ks  == 0..3
